@@ -289,6 +289,11 @@ func Graph(r *mon.Rng, maxTypes int) *model.Schema {
 			} else {
 				t = &model.TypeDef{Name: tname(i), Root: model.Ref(a, b)}
 			}
+			// an alias / union type may itself be nullable: null then belongs to every union
+			// that names this type
+			if r.Chance(1, 3) {
+				t.Root.Rules = append(t.Root.Rules, model.RBool("nullable", true))
+			}
 		case "regex":
 			rc := mon.Pick(r, RegexTable[:12])
 			if rc.Pattern == "a/b" {
